@@ -1078,11 +1078,16 @@ coap_op_resource_deleted(coap_context_t *context,
   coap_binary_t *raw_packet = NULL;
   (void)user_data;
 
-  coap_op_obs_cnt_deleted(context, resource_name);
-
+  /*
+   * The resource goes first, its observe counter afterwards: if interrupted
+   * in between, a restart finds a counter without resource (harmless) and not
+   * a resource that starts counting from the beginning again.
+   */
   fp_orig = fopen((const char *)context->dyn_resource_save_file->s, "r");
-  if (fp_orig == NULL)
+  if (fp_orig == NULL) {
+    coap_op_obs_cnt_deleted(context, resource_name);
     return 1;
+  }
 
   new = coap_malloc_type(COAP_STRING,
                          context->dyn_resource_save_file->length + 5);
@@ -1120,6 +1125,7 @@ coap_op_resource_deleted(coap_context_t *context,
   /* Either old or new is in place */
   (void)rename(new, (const char *)context->dyn_resource_save_file->s);
   coap_free_type(COAP_STRING, new);
+  coap_op_obs_cnt_deleted(context, resource_name);
   return 1;
 
 fail:
